@@ -16,6 +16,10 @@
 //	sto=<BatchSendTimeout ms> nd=<n> d<i>=<host>|<key>|<dataset>|<ok|bad>   (strings kit.Enc'ed)
 //
 // ops:  start | enq <dest> <target size | m> s=<script> | adv <ns> s=<script> | stop s=<script>
+//       cenq <k> <dest>[.<dest>…] s=<script>   k goroutines, released together while the harness holds
+//         the batch-map lock, each enqueue one small event; goroutine i uses the i-th destination
+//         (cyclically).  `ext order <first id> = <ids>` tells the oracle in which order the events
+//         ended up in their batches (the linearisation the implementation chose).
 // script: comma separated behaviours, consumed per destination in request order, then `ok`:
 //
 //	ok okm sh~N lg~N pe~M ps~S ud udm em st~C sm~C sx~C ra~C~<Retry-After> to er cl hg
@@ -31,6 +35,7 @@ import (
 	"net/http"
 	"net/url"
 	"os"
+	"runtime"
 	"sort"
 	"strconv"
 	"strings"
@@ -902,6 +907,87 @@ func (r *runner) Do(op []string) (string, bool) {
 		r.dt.EnqueueEvent(ev)
 		r.drain()
 		return r.observe(""), true
+	case "cenq":
+		if !r.started || len(op) < 3 {
+			return "bad-op", true
+		}
+		k, _ := strconv.Atoi(op[1])
+		var dl []int
+		for _, x := range strings.Split(op[2], ".") {
+			v, _ := strconv.Atoi(x)
+			dl = append(dl, v)
+		}
+		if k < 1 || k > 64 || len(dl) == 0 {
+			return "bad-op", true
+		}
+		r.beginOp(parseScript(op))
+		base := r.nextID
+		r.nextID += k
+		evs := make([]*types.Event, k)
+		isNew := map[int]bool{}
+		for i := range evs {
+			evs[i] = r.mkEvent(base+i, dl[i%len(dl)], strconv.Itoa(100+i))
+			isNew[base+i] = true
+			if n, err := transmit.VerifTransmitMarshalSize(evs[i]); err != nil {
+				kit.Ext("size %d = err", base+i)
+			} else {
+				kit.Ext("size %d = %d", base+i, n)
+			}
+		}
+		release := transmit.VerifTransmitHoldMap(r.dt)
+		var ready, done sync.WaitGroup
+		start := make(chan struct{})
+		for _, ev := range evs {
+			ready.Add(1)
+			done.Add(1)
+			go func() {
+				defer done.Done()
+				ready.Done()
+				<-start
+				r.dt.EnqueueEvent(ev)
+			}()
+		}
+		ready.Wait()
+		close(start)
+		time.Sleep(time.Millisecond) // let them all reach the map lookup
+		release()
+		done.Wait()
+		r.drain()
+		// the order the implementation chose: what was dispatched in this op, then what waits
+		var order []string
+		seen := map[int]bool{}
+		add := func(id int) {
+			if isNew[id] && !seen[id] {
+				seen[id] = true
+				order = append(order, strconv.Itoa(id))
+			}
+		}
+		r.mu.Lock()
+		for _, a := range r.attempts {
+			for _, id := range a.ids {
+				add(id)
+			}
+		}
+		r.mu.Unlock()
+		did := map[int]bool{}
+		for _, di := range dl {
+			if did[di] || di < 0 || di >= len(r.dests) {
+				continue
+			}
+			did[di] = true
+			d := r.dests[di]
+			for _, ev := range transmit.VerifTransmitPending(r.dt, d.host, d.key, d.dataset) {
+				if v, ok := ev.Data.Get("id").(int64); ok {
+					add(int(v))
+				}
+			}
+		}
+		o := "-"
+		if len(order) > 0 {
+			o = strings.Join(order, ".")
+		}
+		kit.Ext("order %d = %s", base, o)
+		return r.observe(""), true
 	case "adv":
 		if !r.started || len(op) < 2 {
 			return "bad-op", true
@@ -1014,7 +1100,8 @@ func (comp) Gen(r *kit.Rng, maxLen int, tier string) kit.Case {
 	btms := []int{1, 4, 10, 100, 400, 1000, 30000}[r.Intn(7)]
 	bt := time.Duration(btms) * time.Millisecond
 	period := bt / 4
-	nd := 1 + r.Intn(4)
+	ndPlain := 1 + r.Intn(4)
+	nd := ndPlain + 1 + r.Intn(3) // the extra destinations are first used by a concurrent enqueue
 	var dests []dest
 	haveDot := false
 	for len(dests) < nd {
@@ -1066,6 +1153,10 @@ func (comp) Gen(r *kit.Rng, maxLen int, tier string) kit.Case {
 	}
 	// generator-side bookkeeping (only used to aim at boundaries)
 	now := time.Duration(0)
+	used := make([]bool, nd)
+	for i := 0; i < ndPlain; i++ {
+		used[i] = true
+	}
 	cnt := make([]int, nd)
 	sum := make([]int, nd) // packed bytes of the current sub-batch if the batch were split now
 	start := make([]time.Duration, nd)
@@ -1078,9 +1169,74 @@ func (comp) Gen(r *kit.Rng, maxLen int, tier string) kit.Case {
 		return s
 	}
 	for i := 0; i < n; i++ {
-		switch r.Pick(62, 38) {
+		switch r.Pick(56, 34, 10) {
+		case 2: // concurrent enqueue, preferably on destinations nothing was enqueued for yet
+			if mb < 2 {
+				ops = append(ops, fmt.Sprintf("adv 0 s=-"))
+				break
+			}
+			var fresh, other []int
+			for j := 0; j < nd; j++ {
+				if !used[j] {
+					fresh = append(fresh, j)
+				} else if cnt[j] == 0 {
+					other = append(other, j)
+				}
+			}
+			cand := fresh
+			if len(cand) == 0 || r.Chance(15) {
+				cand = append(cand, other...)
+			}
+			if len(cand) == 0 {
+				ops = append(ops, fmt.Sprintf("adv 0 s=-"))
+				break
+			}
+			ndl := 1
+			if len(cand) > 1 && r.Chance(35) {
+				ndl = 2 + r.Intn(2)
+				if ndl > len(cand) {
+					ndl = len(cand)
+				}
+			}
+			// pick ndl distinct candidates
+			for a := 0; a < ndl; a++ {
+				b := a + r.Intn(len(cand)-a)
+				cand[a], cand[b] = cand[b], cand[a]
+			}
+			dl := cand[:ndl]
+			k := 2 + r.Intn(7)
+			if k > mb*ndl { // never more than one size dispatch per destination inside the op
+				k = mb * ndl
+			}
+			if k < 2 {
+				k = 2
+			}
+			strs := make([]string, ndl)
+			for a, j := range dl {
+				strs[a] = strconv.Itoa(j)
+			}
+			for a := 0; a < k; a++ {
+				j := dl[a%ndl]
+				used[j] = true
+				if cnt[j] == 0 {
+					start[j] = now
+					sum[j] = 0
+				}
+				cnt[j]++
+				sum[j] += 100 + a
+				if cnt[j] >= mb {
+					cnt[j] = 0
+				}
+			}
+			ops = append(ops, fmt.Sprintf("cenq %d %s s=%s", k, strings.Join(strs, "."), script()))
 		case 0:
-			di := r.Intn(nd)
+			var plain []int
+			for j := 0; j < nd; j++ {
+				if used[j] {
+					plain = append(plain, j)
+				}
+			}
+			di := plain[r.Intn(len(plain))]
 			if r.Chance(50) { // favour one destination so that batches fill up
 				di = 0
 			}
@@ -1201,4 +1357,9 @@ func (comp) Gen(r *kit.Rng, maxLen int, tier string) kit.Case {
 
 func facts() map[string]string { return transmit.VerifTransmitFacts() }
 
-func main() { kit.Main(comp{}, facts) }
+func main() {
+	if runtime.GOMAXPROCS(0) < 8 {
+		runtime.GOMAXPROCS(8)
+	}
+	kit.Main(comp{}, facts)
+}
